@@ -47,21 +47,29 @@ def filtered (expected : Option (List UInt8)) (k : UInt8) : Bool :=
   | some ex => !ex.isEmpty && !ex.contains k
   | none => false
 
-def decodeAux (expected : Option (List UInt8)) : Nat → Bytes → Items → Except Err Items
-  | 0, _, acc => .ok acc
-  | _, [], acc => .ok acc
-  | fuel+1, k :: tail, acc =>
-    if filtered expected k then .ok acc
+/-- the `while len(tail) > 0` loop of `decode_bytearray`.  An item whose type the caller did not ask
+    for is skipped (leniently: a cut-short unexpected item just ends the input); `skipped` records
+    that the previous item was skipped, in which case the next one is never merged into
+    `result[-1]`. -/
+def decodeAux (expected : Option (List UInt8)) : Nat → Bytes → Items → Bool → Except Err Items
+  | 0, _, acc, _ => .ok acc
+  | _, [], acc, _ => .ok acc
+  | fuel+1, k :: tail, acc, skipped =>
+    if filtered expected k then
+      match tail with
+      | [] => .ok acc
+      | len :: rest => decodeAux expected fuel (rest.drop len.toNat) acc true
     else match tail with
       | [] => .error .parse
       | len :: rest =>
         let value := rest.take len.toNat
         if value.length ≠ len.toNat then .error .parse
-        else decodeAux expected fuel (rest.drop len.toNat) (push acc k value)
+        else decodeAux expected fuel (rest.drop len.toNat)
+          (if skipped then (k, value) :: acc else push acc k value) false
 
 /-- `TLV.decode_bytearray(ba, expected)` -/
 def decode (expected : Option (List UInt8)) (bs : Bytes) : Except Err Items :=
-  match decodeAux expected bs.length bs [] with
+  match decodeAux expected bs.length bs [] false with
   | .error e => .error e
   | .ok acc => .ok acc.reverse
 
